@@ -356,7 +356,14 @@ class PyvalColorizer:
             # different from its constant's name and because its documentation
             # is not relevant to annotations.
             self._output(str(pyval), self.CONST_TAG, state, link=True)
-        elif pyvaltype is int or pyvaltype is float or pyvaltype is complex:
+        elif pyvaltype is int:
+            try:
+                int_repr = str(pyval)
+            except ValueError:
+                # more digits than sys.get_int_max_str_digits(); power-of-two bases have no limit
+                int_repr = hex(pyval)
+            self._output(int_repr, self.NUMBER_TAG, state)
+        elif pyvaltype is float or pyvaltype is complex:
             self._output(str(pyval), self.NUMBER_TAG, state)
         elif pyvaltype is str:
             self._colorize_str(pyval, state, '', escape_fcn=_str_escape)
